@@ -1,5 +1,5 @@
 From Coq Require Import Permutation.
-From QV Require Import model.Base gen.GenUigen model.Uigen proofs.UigenProofs model.Driver proofs.DriverProofs props.C04.
+From QV Require Import model.Base gen.GenUigen model.Uigen proofs.UigenProofs model.Driver proofs.DriverProofs model.FsModel proofs.FsProofs model.DriverFs proofs.DriverFsProofs props.C04.
 Open Scope string_scope.
 Check (C04_form_is_the_placed_bindings : forall m o, Permutation (r_form (run m o)) (flat_map (fate_form o) (o_props o))).
 Check (C04_header_is_the_dynamic_bindings : forall o, Permutation (r_bindings (run Generate o)) (flat_map (fate_header o) (o_props o))).
@@ -32,3 +32,8 @@ Check (C04_nothing_is_written_from_the_faulty_source_on : forall (out : Type) (a
 Check (C04_accepted_sources_are_all_written : forall (out : Type) (os : list out), run_sources out (List.map Translated os) = (os, true)).
 Check (eq_refl : run_sources nat [Translated 1; HasErrors; Translated 2] = ([1], false)).
 Check (eq_refl : is_error nat = fun v => match v with HasErrors => true | _ => false end).
+Check (C04_errors_write_nothing_on_disk : forall s t a b n q, fresh s t ->
+  ~ In q (map fst (outs_of (outputs_before_first_error _ a))) ->
+  lookup (files (exec_all s (firstn n (command_ops s t (a ++ HasErrors :: b))))) q = lookup (files s) q).
+Check (eq_refl : command_ops = fun s t vs => run_ops s t (outs_of (fst (run_sources _ vs)))).
+Check (eq_refl : outs_of = fun w => concat w).
